@@ -109,6 +109,11 @@ fn admissible(tr: &Traj, limit: i32, cap: usize, tl: u64) -> Vec<(R, usize)> {
     let mut j = 0usize;
     loop {
         let mut mandatory = false;
+        // a program that has finished within the budget may always be reported as finished
+        // ("NoErrors only when the EXEC stack is empty"; at most limit+1 steps were executed)
+        if tr.done_at == Some(j) {
+            out.push((R::NoErrors, j));
+        }
         // step budget: StepLimitExceeded only after the budget is used up, never after more than limit+1 steps
         if (j as i64) >= limit as i64 {
             out.push((R::Step, j));
@@ -121,11 +126,7 @@ fn admissible(tr: &Traj, limit: i32, cap: usize, tl: u64) -> Vec<(R, usize)> {
             out.push((R::Time, j));
             mandatory = true;
         }
-        if mandatory {
-            return out;
-        }
-        if tr.done_at == Some(j) {
-            out.push((R::NoErrors, j));
+        if mandatory || tr.done_at == Some(j) {
             return out;
         }
         if j + 1 >= tr.states.len() {
@@ -263,10 +264,16 @@ pub fn ladder_family(ctx: &mut Ctx) {
     // growth: each of the nine counted stacks, k items pushed by one step, around every cap
     for (_s, name) in GROW_NAMES.iter().enumerate() {
         for k in 0..=8usize {
-            let prog = Tree::L(vec![Tree::ins("NOOP"), Tree::ins(&format!("GROW.{}.{}", name, k)), Tree::ins("NOOP")]);
-            for (bl, base) in &bs {
-                for cap in [0usize, 1, 2, 5, 6] {
-                    check_case(ctx, &mut real, bl, &prog, base, 50, cap, 5000);
+            // the growing step in the middle, as the last step (the one that empties EXEC) and as the only step
+            for prog in [
+                Tree::L(vec![Tree::ins("NOOP"), Tree::ins(&format!("GROW.{}.{}", name, k)), Tree::ins("NOOP")]),
+                Tree::L(vec![Tree::ins("NOOP"), Tree::ins(&format!("GROW.{}.{}", name, k))]),
+                Tree::ins(&format!("GROW.{}.{}", name, k)),
+            ] {
+                for (bl, base) in &bs {
+                    for cap in [0usize, 1, 2, 5, 6] {
+                        check_case(ctx, &mut real, bl, &prog, base, 50, cap, 5000);
+                    }
                 }
             }
         }
